@@ -68,7 +68,8 @@ def gen_case(seed: int, tier: str, index: int) -> Dict[str, Any]:
             plan.append({"op": "flip", "t": round(t0 + rng.choice([0.0, 0.01, 0.05, 0.3, 1.0]), 3), "dev": dev, "on": False, "form": form, "same_as_previous": True})
     plan.sort(key=lambda o: (o["t"], o["op"] != "switch"))
     snaps = [s for s in snapshot_files()]
-    cfg = {"kind": kind, "net": {"lat_min": 0.001, "lat_max": 0.004}, "loop": loop_cfg, "tables": tables, "duration": dur,
+    rem = random.Random(mix(seed, "c17.reminders")).choice([None, None, "none", "one"])
+    cfg = {"kind": kind, "net": {"lat_min": 0.001, "lat_max": 0.004}, "loop": loop_cfg, "tables": tables, "duration": dur, "peer_reminders": rem,
            "snapshot": snaps[rng.randrange(len(snaps))].split("/")[-1]}
     return {"property": PROP, "world": "A", "seed": seed, "cfg": cfg, "plan": plan}
 
@@ -271,7 +272,16 @@ async def scenario(world: WorldA) -> None:
         def on_delivery(d):
             pass
         async with sysm.man as man:
-            await sysm.wait_connected()
+            await sysm.wait_connected(one_update=False)
+            try:
+                await asyncio.wait_for(man.facade.wait_for_one_update(), 240)
+            except asyncio.TimeoutError:
+                # the spa answers everything on a healthy network, yet the facade never completes the pass in which it looks at its pumps and
+                # blowers and selects the timing table
+                alive = sorted(t.get_name() for t in asyncio.all_tasks() if t.get_name().startswith("FACADE:") and not t.done())
+                world.violate(PROP, "facade-mode-mismatch", f"the facade existed for 240s on a healthy network without completing its first update pass "
+                              f"(the pass that selects active or idle from the pumps and blowers); its update task alive: {alive}; spa reminders: "
+                              f"{cfg.get('peer_reminders', 'as the simulator ships them')}", sig="facade-mode-mismatch:first-pass-never-completes")
             facade_ready[id(man.facade)] = True
             keep: List[Any] = [man.facade]
 
@@ -365,7 +375,7 @@ ASSUMPTIONS = [
     "'at once' = every moment between the switch and the wake is attributable to simulator-injected callback cost (+2 ms)",
     "only upper bounds are checked: the statement does not forbid an early wake",
 ]
-PROBES = ["flip_learnt_only_from_a_refresh", "flip_reported_as_word_at_item", "flip_reported_as_word_before_item", "facade_ready_after_reconnect", "facade_wants_active", "facade_wants_idle", "sleeper_interrupted_by_switch", "sleeper_ran_full_time", "switch_in_same_instant_as_sleep_start", "both_modes_requested", "ten_or_more_sleeps"]
+PROBES = ["flip_learnt_only_from_a_refresh", "spa_reports_none_reminders", "flip_reported_as_word_at_item", "flip_reported_as_word_before_item", "facade_ready_after_reconnect", "facade_wants_active", "facade_wants_idle", "sleeper_interrupted_by_switch", "sleeper_ran_full_time", "switch_in_same_instant_as_sleep_start", "both_modes_requested", "ten_or_more_sleeps"]
 N_QUICK = 4000
 
 
